@@ -26,7 +26,11 @@ func (l *Lab) record(c *vkit.Ctx, lc *LabCase) (*Analysis, bool) {
 func (l *Lab) recordWith(c *vkit.Ctx, lc *LabCase, prog *Program) (*Analysis, bool) {
 	scn := *lc.Scenario
 	scn.CleanSort = false
-	res := prog.RunChild(RunOpt{PkgDir: l.PkgDir, Scenario: &scn})
+	ro := RunOpt{PkgDir: l.PkgDir, Scenario: &scn}
+	if lc.Bench {
+		ro.Extra, ro.Run = BenchFlags, "^$"
+	}
+	res := prog.RunChild(ro)
 	if !res.Complete {
 		c.Inconclusive("recording run did not complete: " + fmt.Sprint(res.Err) + " " + res.Stderr)
 		return nil, false
